@@ -5,7 +5,7 @@
 EXTENDS SimplifyOps, TraceIO
 D == INSTANCE Simplify WITH Curves <- {}, Tol2s <- {}, curve <- <<>>, tol2 <- 0, st <- 0
 VARIABLES cs,
-          known     \* rejected lines that match the known finding (see IsKnown)
+          drift     \* lines of accepted line-string results (curves of <= 14 vertices) that differ from what the R2 transcription computes (informational)
 
 LineOk(e) == /\ e.out = "ok" /\ e.inputsame
              /\ SimplifyOK(cs.curve, cs.tol2, e.res, FALSE)
@@ -19,20 +19,13 @@ Ok(e) == e.ev = "simplify" /\ CASE cs.kind = "line" -> LineOk(e)
                                 [] cs.kind = "poly" -> PolyOk(e)
                                 [] cs.kind = "multi" -> MultiOk(e)
                                 [] OTHER -> FALSE
-(* Known finding C13-not-simple: the greedy algorithm as documented in Simplify.tla does not re-check the
-   closing segment nor the segment adjacent to a new chord, so a simple line can come out self-touching.  A
-   rejected line matches it only if everything else holds, the input is simple, the output is not, and the
-   output is *exactly* what the documented algorithm yields on this input - any other non-simple output is a
-   new violation. *)
-IsKnown(e) == /\ e.ev = "simplify" /\ cs.kind = "line" /\ e.out = "ok" /\ e.inputsame
-              /\ SimplifyOK(cs.curve, cs.tol2, e.res, FALSE)
-              /\ ~SimplicityOK(cs.curve, e.res)
-              /\ e.res = D!Documented(cs.curve, cs.tol2)
-Apply(e) == UNCHANGED <<cs, known>>
-Reset(e) == cs' = e /\ UNCHANGED known
-Keep == UNCHANGED cs /\ known' = IF IsKnown(Trace[l]) THEN Append(known, l) ELSE known
-TraceInit == TInit /\ cs = [kind |-> "none"] /\ known = <<>>
+(* conformance of the code to the R2 transcription (Simplify.tla run to completion inside TLC): counted, never decisive *)
+Drifted(e) == cs.kind = "line" /\ Len(cs.curve) <= 14 /\ e.res # D!Documented(cs.curve, cs.tol2)
+Apply(e) == UNCHANGED cs /\ drift' = IF Drifted(e) THEN Append(drift, l) ELSE drift
+Reset(e) == cs' = e /\ UNCHANGED drift
+Keep == UNCHANGED <<cs, drift>>
+TraceInit == TInit /\ cs = [kind |-> "none"] /\ drift = <<>>
 TraceNext == TStep(Ok, Apply, Reset, Keep)
-TraceSpec == TraceInit /\ [][TraceNext]_<<l, fails, cs, known>>
-Report == TReport /\ (l > Len(Trace) => PrintT(<<"KNOWN", known>>))
+TraceSpec == TraceInit /\ [][TraceNext]_<<l, fails, cs, drift>>
+Report == TReport /\ (l > Len(Trace) => PrintT(<<"DRIFT", drift>>))
 =============================================================================
